@@ -11,6 +11,7 @@ import (
 	"fmt"
 	"math/rand/v2"
 	"sort"
+	"strconv"
 
 	"github.com/gordian-engine/gordian/gcrypto"
 	"github.com/gordian-engine/gordian/tm/tmconsensus"
@@ -1072,7 +1073,7 @@ func (g *gen) attackPH(h uint64, r uint32, cr uint32) (tmconsensus.ProposedHeade
 // forgeLists returns a copy of vs whose validator lists were altered while
 // both hashes stay as they were. keys=true swaps keys, false alters powers.
 func forgeLists(vs tmconsensus.ValidatorSet, g *gen, keys bool) tmconsensus.ValidatorSet {
-	mode := 1
+	mode := []int{1, 1, 4}[g.pick(3)]
 	if keys {
 		mode = []int{0, 0, 2, 3}[g.pick(4)]
 	}
@@ -1081,7 +1082,8 @@ func forgeLists(vs tmconsensus.ValidatorSet, g *gen, keys bool) tmconsensus.Vali
 
 // forgeListsMode: 0 = foreign keys in both lists, 1 = powers altered,
 // 2 = only the PubKeys list replaced (Validators untouched),
-// 3 = only the Validators' keys replaced (PubKeys untouched).
+// 3 = only the Validators' keys replaced (PubKeys untouched),
+// 4 = the digits of two neighbouring powers split elsewhere.
 func forgeListsMode(vs tmconsensus.ValidatorSet, g *gen, mode int) tmconsensus.ValidatorSet {
 	out := tmconsensus.ValidatorSet{PubKeyHash: vs.PubKeyHash, VotePowerHash: vs.VotePowerHash}
 	out.Validators = append([]tmconsensus.Validator(nil), vs.Validators...)
@@ -1106,6 +1108,29 @@ func forgeListsMode(vs tmconsensus.ValidatorSet, g *gen, mode int) tmconsensus.V
 		for i := range out.PubKeys {
 			out.PubKeys[i] = f.keys[i].pub
 		}
+	case 4:
+		// the decimal digits of two neighbouring powers split at another place ("12","3" ->
+		// "1","23"): the list a separator-free power hash cannot tell from the original;
+		// falls back to mode 1 when no other split exists
+		done := false
+		for i := 0; i+1 < n && !done; i++ {
+			a, b := strconv.FormatUint(out.Validators[i].Power, 10), strconv.FormatUint(out.Validators[i+1].Power, 10)
+			digits := a + b
+			for c := 1; c < len(digits) && !done; c++ {
+				if c == len(a) || digits[c] == '0' {
+					continue
+				}
+				p0, e0 := strconv.ParseUint(digits[:c], 10, 64)
+				p1, e1 := strconv.ParseUint(digits[c:], 10, 64)
+				if e0 == nil && e1 == nil && p0 > 0 && p1 > 0 {
+					out.Validators[i].Power, out.Validators[i+1].Power = p0, p1
+					done = true
+				}
+			}
+		}
+		if !done {
+			return forgeListsMode(vs, g, 1)
+		}
 	default:
 		for i := range out.Validators {
 			out.Validators[i].PubKey = f.keys[i].pub
@@ -1119,8 +1144,50 @@ func forgeListsMode(vs tmconsensus.ValidatorSet, g *gen, mode int) tmconsensus.V
 
 func (g *gen) attackReplay(vh uint64, vr uint32, cr uint32) {
 	set := g.w.set(vh)
-	att := g.pick(10)
+	att := g.pick(13)
 	switch att {
+	case 12: // genuine validators and hashes, only the PubKeys list replaced, certificate by those keys
+		ph, ok := g.newLegitBlock(vh, vr, cr)
+		if !ok {
+			return
+		}
+		hd := ph.Header
+		hd.ValidatorSet = forgeListsMode(hd.ValidatorSet, g, 2)
+		f := g.w.foreignSet(len(hd.ValidatorSet.PubKeys))
+		proof := tmconsensus.CommitProof{Round: vr, PubKeyHash: string(hd.ValidatorSet.PubKeyHash), Proofs: map[string][]gcrypto.SparseSignature{}}
+		for i := range f.keys {
+			proof.Proofs[string(hd.Hash)] = append(proof.Proofs[string(hd.Hash)], gcrypto.SparseSignature{KeyID: be16(i), Sig: g.w.sign(f.keys[i], kindPrecommit, vh, vr, string(hd.Hash))})
+		}
+		g.sendReplay(hd, proof, "pubkeys-list-swapped-certificate-by-those-keys")
+	case 10, 11: // signatures of one round presented as the certificate of a later one
+		// The node is first given one genuine precommit for the block in the source round
+		// (its voting round or the next one), so that it holds a proof entry for that hash;
+		// the replay then claims a round two or three past the voting round and carries a
+		// quorum of signatures that are genuine precommits for the source round. For the
+		// claimed round they are worth nothing.
+		ph, ok := g.newLegitBlock(vh, vr, cr)
+		if !ok {
+			return
+		}
+		hash := string(ph.Header.Hash)
+		src := vr
+		if att == 11 {
+			src = vr + 1
+		}
+		one := g.w.minoritySubset(g.rng, vh)
+		if len(one) > 1 {
+			one = one[:1]
+		}
+		if len(one) == 1 {
+			if att == 10 {
+				g.sendPH(ph, "legit")
+			}
+			g.sendVote(g.validVote(kindPrecommit, vh, src, hash, one))
+		}
+		claimed := vr + 2 + uint32(g.pick(2))
+		proof := g.w.commitProofFor(vh, src, hash, g.w.quorumSubset(g.rng, vh, false), nil)
+		proof.Round = claimed
+		g.sendReplay(ph.Header, proof, fmt.Sprintf("round-%d-signatures-relabelled-as-round-%d", src, claimed))
 	case 0: // wrong height
 		dh := []int{-2, -1, 1, 2, 3}[g.pick(5)]
 		h := int64(vh) + int64(dh)
